@@ -159,11 +159,15 @@ func checkC14(c *Ctx) error {
 	// a shared parent context that an EARLIER render has written to (a template function, a contentFor block): executions on
 	// child contexts use what it defined, each with its own data
 	// (the defining render has itself written nested arrays and resolved a path after an index before it stores the block)
-	const prelude = `<%= if (true) { %><%= if (true) { %><%= [1, [2]] %><% } %><% } %><% let first = sx[0] %><% let deepfn = fn(n) { if (n == 0) { return "ok" } return deepfn(n - 1) } %><% contentFor("shared") { %>[<%= label %>:<%= for (v) in [1, 2] { %><%= label %><%= if (true) { %><%= [label, [label]] %><% } %><% } %>]<% } %>`
+	const prelude = `<%= if (true) { %><%= if (true) { %><%= [1, [2]] %><% } %><% } %><% let first = sx[0] %><% let t0 = rows[0].Tags %><% let deepfn = fn(n) { if (n == 0) { return "ok" } return deepfn(n - 1) } %><% contentFor("shared") { %>[<%= label %>:<%= rows[0].Tags[0] %>:<%= for (v) in [1, 2] { %><%= label %><%= if (true) { %><%= [label, [label]] %><% } %><% } %>]<% } %>`
 	for _, g := range []int{2, 8} {
 		scenarios = append(scenarios,
 			c14Scenario{Kind: "sharedfn", G: g, Topo: "child", Iters: 4, Src: `<%= deepfn(180) %>|<%= gid %>|<%= deepfn(2) %>`, Parts: map[string]string{"__prelude": prelude}},
 			c14Scenario{Kind: "sharedblock", G: g, Topo: "child", Iters: 40, Src: `<%= contentOf("shared", {label: gid}) %>|<%= gid %>`, Parts: map[string]string{"__prelude": prelude}})
+	}
+	// BuffaloRenderer without data, all renderings handing over ONE helpers map (an application's): the map is only read
+	for _, g := range []int{2, 8} {
+		scenarios = append(scenarios, c14Scenario{Kind: "buffalo", G: g, Topo: "root", Iters: 30, Src: `<% let who = me() %><%= who %>|<%= if (leftover) { %>L<% } %><% let leftover = 1 %>`})
 	}
 	for i := range scenarios {
 		scenarios[i].ID = i
@@ -481,6 +485,9 @@ func c14RunOps(s c14Scenario) (res c14Result) {
 	return
 }
 
+// rows[0].Tags[0]: a path that goes on after an index, over data of the execution's own
+type c14Row struct{ Tags []string }
+
 type c14BaseA struct{ Name string }
 type c14PageA struct {
 	c14BaseA
@@ -496,7 +503,44 @@ type c14PageB struct {
 	c14BaseB
 }
 
+// c14RunBuffalo: G goroutines render through BuffaloRenderer(src, nil, helpers) with one helpers map.
+func c14RunBuffalo(s c14Scenario) (res c14Result) {
+	helpers := map[string]interface{}{"me": func() string { return "M" }, "other": func() string { return "O" }}
+	var wg sync.WaitGroup
+	var mu sync.Mutex
+	for g := 0; g < s.G; g++ {
+		wg.Add(1)
+		go func(g int) {
+			defer wg.Done()
+			defer func() {
+				if r := recover(); r != nil {
+					mu.Lock()
+					res.Panic = fmt.Sprint(r)
+					mu.Unlock()
+				}
+			}()
+			for i := 0; i < s.Iters; i++ {
+				out, err := plush.BuffaloRenderer(s.Src, nil, helpers)
+				if out != "M|" || err != nil {
+					mu.Lock()
+					res.Mismatch = fmt.Sprintf("goroutine %d rendering %d got (%q, %v), alone it gives (\"M|\", nil)", g, i, out, err)
+					mu.Unlock()
+					return
+				}
+			}
+		}(g)
+	}
+	wg.Wait()
+	if len(helpers) != 2 && res.Mismatch == "" {
+		res.Mismatch = fmt.Sprintf("the caller's helpers map had 2 entries and has %d after the renderings", len(helpers))
+	}
+	return
+}
+
 func c14RunExec(s c14Scenario) (res c14Result) {
+	if s.Kind == "buffalo" {
+		return c14RunBuffalo(s)
+	}
 	plush.CacheEnabled = s.Cache
 	defer func() { plush.CacheEnabled = false }()
 	item := corpusItem{Src: s.Src, Case: &semCase{Data: s.Data}}
@@ -533,6 +577,7 @@ func c14RunExec(s c14Scenario) (res c14Result) {
 	var parent *plush.Context
 	if s.Topo == "child" {
 		parent, _ = mkctx(nil)
+		parent.Set("rows", []c14Row{{Tags: []string{"seed"}}})
 		if pre := s.Parts["__prelude"]; pre != "" {
 			if _, err := plush.Render(pre, parent); err != nil {
 				res.Mismatch = "the prelude does not render: " + err.Error()
@@ -557,6 +602,7 @@ func c14RunExec(s c14Scenario) (res c14Result) {
 	run := func(t *plush.Template, gid string) outcome {
 		ctx, env := mkctx(parent)
 		ctx.Set("gid", gid) // data that differs from execution to execution
+		ctx.Set("rows", []c14Row{{Tags: []string{"t" + gid}}})
 		// ... also in TYPE: px is a struct of one of two types that promote Name from embedded structs at different positions
 		if sum := len(gid) + int(gid[len(gid)-1]); sum%2 == 0 {
 			ctx.Set("px", c14PageA{c14BaseA: c14BaseA{Name: "A:" + gid}, Title: "ta"})
